@@ -1,4 +1,3 @@
 package main
 
-type flowGraph struct{}
 type threads struct{}
